@@ -212,7 +212,7 @@ def run(F, rep, tier):
     inner = None
     for cl in F.closures_of(cf) + [cf]:
         for m in F.matches.get(cl, []):
-            if m['kind'] == 'Normal' and 'std::cmp::Ordering' in m['scrut_ty'] and len(m['arms']) == 3:
+            if m['kind'] == 'Normal' and 'std::cmp::Ordering' in m['scrut_ty'] and len(m['arms']) >= 2:
                 inner = (cl, m)
     if inner is None:
         rep.viol('R8.2', cf + '|fractional-table', 'cmp_nint_f64: the Less/Equal/Greater table of the fractional branch is gone', cb.loc(0))
@@ -220,13 +220,22 @@ def run(F, rep, tier):
         cl, m = inner
         ib = F.body(cl)
         wantf = {'Less': 'Less', 'Equal': 'Less', 'Greater': 'Greater'}
+        covered = set()
         for i, a in enumerate(m['arms']):
-            k = pat_paths(a['pat'])[0].rsplit('::', 1)[-1]
+            ks = [p_.rsplit('::', 1)[-1] for p_ in pat_paths(a['pat']) if p_.rsplit('::', 1)[-1] in wantf]
+            if not ks:
+                ks = [k_ for k_ in wantf if k_ not in covered]          # wildcard / binding arm: whatever is left
             got = sorted({s[2][4] for _bb, s in ib.aggregates(arm_region(F, ib, m, i)) if s[2][2] == 'std::cmp::Ordering'})
-            if got == [wantf.get(k)]:
-                rep.ok('R8.2', 'cmp_nint_f64 fractional: cmp(a, floor f) = %s' % k, got[0])
-            else:
-                rep.viol('R8.2', cf + '|fractional|%s' % k, 'a vs non-integral f: cmp(a, floor f) == %s must give %s, gives %s' % (k, wantf.get(k), got), ib.loc(0))
+            for k in ks:
+                if k in covered:
+                    continue
+                covered.add(k)
+                if got == [wantf.get(k)]:
+                    rep.ok('R8.2', 'cmp_nint_f64 fractional: cmp(a, floor f) = %s' % k, got[0])
+                else:
+                    rep.viol('R8.2', cf + '|fractional|%s' % k, 'a vs non-integral f: cmp(a, floor f) == %s must give %s, gives %s' % (k, wantf.get(k), got), ib.loc(0))
+        if covered != set(wantf):
+            rep.viol('R8.2', cf + '|fractional-table', 'cmp_nint_f64: the fractional branch does not decide %s' % sorted(set(wantf) - covered), ib.loc(0))
     sp = [c for c in cb.calls if c.target.endswith('is_sign_positive')]
     inf = [c for c in cb.calls if c.target.endswith('is_infinite')]
     if sp and inf:
